@@ -69,7 +69,7 @@ from dask_expr._reductions import ApplyConcatApply, Chunk, Reduction
 from dask_expr._shuffle import RearrangeByColumn
 from dask_expr._util import (
     PANDAS_GE_300,
-    _convert_to_list,
+    _labels_to_list,
     get_specified_shuffle,
     is_scalar,
 )
@@ -1294,7 +1294,7 @@ def groupby_projection(expr, parent, dependents):
         columns = determine_column_projection(
             expr, parent, dependents, additional_columns=expr._by_columns
         )
-        columns = _convert_to_list(columns)
+        columns = _labels_to_list(columns)
         columns = [col for col in expr.frame.columns if col in columns]
         if columns == expr.frame.columns:
             return
